@@ -141,6 +141,7 @@ fn chunk() -> BoxedStrategy<String> {
     prop_oneof![
         6 => "[a-zA-Z0-9 .:#=-]{1,6}",
         1 => "[\u{e9}\u{f1}\u{3b1}]{1,3}",
+        1 => "[\u{9032}\u{6357}]{1,3}",
         1 => Just("\x1b[31m".to_string()),
         1 => Just("\x1b[0m".to_string()),
     ]
@@ -153,10 +154,16 @@ pub fn line_text(cols: usize) -> BoxedStrategy<String> {
         let n = (k * cols) as i32 + d;
         "x".repeat(n.max(0) as usize)
     });
+    // double-width glyphs only: fewer characters than columns, yet the line wraps
+    let wide = (0usize..3, -1i32..=1).prop_map(move |(k, d)| {
+        let n = (k * cols / 2) as i32 + cols as i32 / 4 + d;
+        "\u{9032}".repeat(n.max(1) as usize)
+    });
     prop_oneof![
         2 => Just(String::new()),
         5 => proptest::collection::vec(chunk(), 0..4).prop_map(|v| v.concat()),
         3 => exact,
+        1 => wide,
         1 => Just("\x1b[1m\x1b[0m".to_string()),
     ]
     .boxed()
